@@ -37,6 +37,7 @@ var c14Fragments = []string{
 	" ", "  ", "\t", "\n", "\r", "\v", "\f", "\x00", "\x00\x00", "\xa0", "\xc2\xa0", "\xc2\x85", "\x85",
 	// halves of multi-byte white space: removing what stands between them joins them into a character
 	"\xc2", "\xe2\x80", "\xa8", "\xe2", "\x80\xa8", "\xe3\x80", "\xe1\x9a", "\x80",
+	"\xc2 \xa0", "\xc2\t\x85", "\xe2\x80 \xa8", "\xe1\x9a\n\x80", "\xe3\x80\r\x80", "\xc2\x00\xa0",
 	"^", "\"", "'", ",", ";", "(", " (", "/ ", "\\ ",
 	"\xff", "\xc0", "\xc0\xaf", "\xe2\x82", "\xe2\x82\xac", "\xf0\x9f\x98\x80", "\xed\xa0\x80", "é", "ſ", "K", "İ", "ǅ",
 	"A", "a", "Z", "z", "0", "9", "f", "F", "g", "=", "==", "QQ==", "QUI=", "QUJD", "-", "_", ".",
